@@ -186,6 +186,16 @@ func caseWriter(r *gen.Rand, idx int) {
 	}
 	uw.Unmarshal()
 	c := &Case{I: idx, Class: "writer", Mult: 1, In: hx(body), Text: body, Err: parseErr, Judged: true, Nontrivial: true, Writer: outs}
+	for _, l := range lines {
+		// which reserved-key triggers the request holds: a variant of the model that differs only through them (e.g. a
+		// refused row whose other keys still reach the schema) is attributed to the finding without an oracle failure
+		if l.timeF {
+			c.Triggers = append(c.Triggers, "C06-time-field-dropped")
+		}
+		if l.timeT {
+			c.Triggers = append(c.Triggers, "C06-time-tag-dropped")
+		}
+	}
 	if parseErr || len(outs) != len(lines) {
 		c.Sub, c.Judged = "valid-refused", false
 		emit(c)
